@@ -261,9 +261,7 @@ func DiffSnap(a, b *Snap, mode string) (string, string) {
 			return cat, fmt.Sprintf("lookups of %s: %+v vs %+v", k, la, lb)
 		}
 	}
-	if mode == "c10" {
-		return "", ""
-	}
+	// range queries are by-height retrieval too (C10: history dropped from memory stays retrievable)
 	for k, ra := range a.Ranges {
 		rb, ok := b.Ranges[k]
 		if !ok {
@@ -272,6 +270,9 @@ func DiffSnap(a, b *Snap, mode string) (string, string) {
 		if !reflect.DeepEqual(ra, rb) {
 			return "range", fmt.Sprintf("GetHeaders(%s) differs: %d vs %d headers", k, len(ra), len(rb))
 		}
+	}
+	if mode == "c10" {
+		return "", ""
 	}
 	if mode == "all" {
 		for _, mx := range locatorMaxes {
